@@ -392,6 +392,143 @@ def has_tag_like(*vals):
     return found[0]
 
 
+# --- finding K1 replayed: what the tag collision makes of an order-ignoring diff, with and without pairing -------------------
+# (used by the K1 matcher only; never by the oracle).  k1_hash is the DeepHash canonical form WITH the collision at the
+# parameters DeepDiff passes (ignore_repetition = not rep): unlike tag_blind it follows deephash.py:453-462, where with
+# ignore_repetition=False the member hashes of EVERY iterable - sets included - are counted, so that {None, 'NONE'} is
+# 'set:h|2' and differs from {'NONE'} = 'set:h|1' as a list item although _diff_set (diff.py:713-717, sets of member hashes)
+# sees no difference between the two.
+
+def k1_atom(a):
+    if a is None:
+        return ("str", "NONE")
+    if a is True or a is False:
+        return ("str", "bool:true" if a else "bool:false")
+    if isinstance(a, int):
+        return ("str", "int:%d" % a)
+    if isinstance(a, float):
+        return ("str", "float:%r" % a)
+    return _tatom(a)
+
+
+def _visible(d):
+    return [(k, x) for k, x in d.items() if not (isinstance(k, str) and k.startswith("__"))]
+
+
+def k1_hash(v, rep):
+    if isinstance(v, (list, tuple, set, frozenset)) and len(v) == 0:
+        return ("str", {list: "list:", tuple: "tuple:", set: "set:", frozenset: "frozenset:"}[type(v)])
+    if isinstance(v, dict):
+        if not _visible(v):
+            return ("str", "dict:{}")
+        return ("D", _bag([(k1_atom(k), k1_hash(x, rep)) for k, x in _visible(v)], True))     # 'k:v' strings sorted and joined: never de-duplicated
+    if isinstance(v, (list, tuple)):
+        return ("L" if isinstance(v, list) else "T", _bag([k1_hash(x, rep) for x in v], rep))
+    if isinstance(v, (set, frozenset)):
+        return ("F" if isinstance(v, frozenset) else "S", _bag([k1_atom(x) for x in v], rep))
+    return k1_atom(v)
+
+
+def _perfect_matching(left, right, ok):
+    """is there a bijection left -> right inside the relation ok (augmenting paths; the levels are small)"""
+    if len(left) != len(right):
+        return False
+    match = {}
+
+    def aug(a, seen):
+        for r in right:
+            if (a, r) in ok and r not in seen:
+                seen.add(r)
+                if r not in match or aug(match[r], seen):
+                    match[r] = a
+                    return True
+        return False
+    return all(aug(a, set()) for a in left)
+
+
+def k1_diff_empty(t1, t2, rep, pairing):
+    """emptiness of DeepDiff(t1, t2, ignore_order=True, report_repetition=rep) as the unchanged code computes it from
+    hashes that collide as K1 says, (pairing False) when no level computes pairs, (pairing True) when every level hands
+    its added / removed items to the recursive diff wherever that gives nothing (such items are at distance 0, below
+    every cutoff_distance_for_pairs).  Follows diff.py: type change; _diff_dict (keys by ==); _diff_set (sets of member
+    hashes); _diff_iterable_with_deephash (item hashes; rep: equal counts of the common hashes; an added hash without
+    a partner / a removed hash without a partner is reported; a pair is diffed on the first items of the two hashes)."""
+    if type(t1) is not type(t2):
+        return False
+    if isinstance(t1, dict):
+        d1, d2 = dict(_visible(t1)), dict(_visible(t2))
+        if set(d1) != set(d2):
+            return False
+        return all(k1_diff_empty(d1[k], d2[k], rep, pairing) for k in d1)
+    if isinstance(t1, (set, frozenset)):
+        return {k1_atom(x) for x in t1} == {k1_atom(x) for x in t2}
+    if isinstance(t1, (list, tuple)):
+        def table(seq):
+            first, cnt = {}, {}
+            for x in seq:
+                h = k1_hash(x, rep)
+                first.setdefault(h, x)
+                cnt[h] = cnt.get(h, 0) + 1
+            return first, cnt
+        f1, c1 = table(t1)
+        f2, c2 = table(t2)
+        if rep and any(c1[h] != c2[h] for h in f1 if h in f2):
+            return False
+        added = [h for h in f2 if h not in f1]
+        removed = [h for h in f1 if h not in f2]
+        if not added and not removed:
+            return True
+        if not pairing:
+            return False
+        ok = {(a, r) for a in added for r in removed if k1_diff_empty(f1[r], f2[a], rep, True)}
+        return _perfect_matching(added, removed, ok)
+    return t1 == t2
+
+
+def pairing_on(kn):
+    """this knob setting lets _diff_iterable_with_deephash compute pairs at all (diff.py:1303, 1315)"""
+    return kn.get("max_passes", 1) != 0 and kn.get("cutoff_intersection_for_pairs", 0.7) != 0
+
+
+def k1_separate(*vals):
+    """the same values with the colliding atoms separated: every tag-like str (NONE / containing ':') renamed, injectively,
+    to a str that spells the serialisation of nothing; everything else - types, shapes, multiplicities, private keys - kept"""
+    strs = set()
+
+    def walk(v):
+        if isinstance(v, str):
+            strs.add(v)
+        elif isinstance(v, (list, tuple, set, frozenset)):
+            for x in v:
+                walk(x)
+        elif isinstance(v, dict):
+            for k, x in v.items():
+                walk(k)
+                walk(x)
+    for v in vals:
+        walk(v)
+    ren = {}
+    for n, s in enumerate(sorted(x for x in strs if x == "NONE" or ":" in x)):
+        new = s.replace(":", ";") + "~%d" % n
+        while new in strs or new in ren.values():
+            new += "~"
+        ren[s] = new
+
+    def sep(v):
+        if isinstance(v, str):
+            return ren.get(v, v)
+        if isinstance(v, list):
+            return [sep(x) for x in v]
+        if isinstance(v, tuple):
+            return tuple(sep(x) for x in v)
+        if isinstance(v, dict):
+            return {sep(k): sep(x) for k, x in v.items()}
+        if isinstance(v, (set, frozenset)):
+            return type(v)(sep(x) for x in v)
+        return v
+    return [sep(v) for v in vals]
+
+
 def _fail(ctx, clause, case, what):
     """every failing input records WHICH clause failed: verdict (result vs specification), knob_dependence, exception, modified (inputs changed),
     copy_differs (sharing changed the verdict), characterisation (aliasing input: result vs C05_verdict_shared_table_partial).  The known-finding
@@ -400,10 +537,57 @@ def _fail(ctx, clause, case, what):
 
 
 def k1_match(case):
-    # K1 is about the verdict clause only, on an input with a tag-like str, and the wrong verdict is the one the collision predicts
-    # (the difference vanishes once every scalar is identified with the str that spells its serialisation)
-    return (case.get("clause") == "verdict" and case.get("impl_empty") is True and case.get("spec_equal") is False
-            and case.get("tag_like") is True and case.get("tag_blind_equal") is True)
+    if case.get("clause") == "knob_dependence":
+        return k1_knob_match(case)
+    # K1 is about the verdict clause ("different reported as equal") on an input with a tag-like str, and the wrong verdict is the one the
+    # collision predicts
+    if not (case.get("clause") == "verdict" and case.get("impl_empty") is True and case.get("spec_equal") is False
+            and case.get("tag_like") is True):
+        return False
+    # (i) the difference vanishes once every scalar is identified with the str that spells its serialisation
+    if case.get("tag_blind_equal") is True:
+        return True
+    # (ii) report_repetition: the two values are NOT equal modulo the collision as nested multisets (tag_blind), because the colliding
+    # members are counted inside a set item or because a removed hash occurs twice, and yet the unchanged code reports nothing once the
+    # differing items are paired (K1 replayed under this very setting predicts empty) - and with the colliding atoms separated the
+    # implementation itself gives the right verdict under this very setting
+    if case.get("k1_predicts_empty") is not True or "knobs" not in case:
+        return False
+    t1, t2 = from_repr(case["t1"]), from_repr(case["t2"])
+    kn = case["knobs"]
+    if not k1_diff_empty(t1, t2, kn.get("report_repetition", False), pairing_on(kn)):
+        return False
+    s1, s2 = k1_separate(t1, t2)
+    return verdict(s1, s2, **kn) is False
+
+
+def k1_knob_match(case):
+    """K1 seen through the knob clause: DeepDiff([{'NONE'}], [{None, 'NONE'}], ignore_order=True, report_repetition=True) is {} with the
+    default knobs and reports the two items with max_passes=0.  Accepted only when the collision PREDICTS this very dependence:
+    (a) the inputs differ (the non-empty verdicts are the right ones) and the verdicts are exactly {empty, non-empty}, no exception;
+    (b) K1 replayed (k1_diff_empty) says non-empty without pairing and empty with it, and every empty verdict was observed under a
+        setting that computes pairs (no setting without pairing gave empty);
+    (c) with the colliding atoms separated (k1_separate) the implementation gives non-empty under EVERY evaluated setting: the
+        dependence disappears, and so it is the collision's; with sharing in the input, the verdicts were those of the copies.
+    A knob dependence on an input that merely contains a tag-like str fails (b) or (c)."""
+    if not (case.get("tag_like") is True and case.get("spec_equal") is False and case.get("verdicts") == ["False", "True"]
+            and case.get("copy_agrees", True) is True):
+        return False
+    kv = case.get("knob_verdicts")
+    if not kv:
+        return False
+    t1, t2 = from_repr(case["t1"]), from_repr(case["t2"])
+    rep = bool(case.get("report_repetition"))
+    if any(bool(kn.get("report_repetition", False)) != rep or got not in (True, False) for kn, got in kv):
+        return False
+    if k1_diff_empty(t1, t2, rep, False) or not k1_diff_empty(t1, t2, rep, True):
+        return False
+    if any(got is True and not pairing_on(kn) for kn, got in kv):
+        return False
+    s1, s2 = k1_separate(t1, t2)
+    if has_tag_like(s1, s2) or spec_canon(s1, rep) == spec_canon(s2, rep):
+        return False
+    return all(verdict(s1, s2, **kn) is False for kn, _got in kv)
 
 
 def k2_match(case):
@@ -445,7 +629,19 @@ def oracle_case(t1, t2, kn, got):
         case["cb_equal"] = cb_canon(t1, rep) == cb_canon(t2, rep)
     if case["tag_like"]:
         case["tag_blind_equal"] = tag_blind(t1, rep) == tag_blind(t2, rep)
+        case["k1_predicts_empty"] = k1_diff_empty(t1, t2, rep, pairing_on(kn))      # K1 replayed under this setting (matcher only)
     return exp, case
+
+
+def knob_case(t1, t2, rep, kv, **extra):
+    """the record of a knob_dependence failure: kv = [(knob setting, verdict)] of this (pair, rep), every evaluated setting"""
+    kv = [(kn, got) for kn, got in kv if bool(kn.get("report_repetition", False)) == bool(rep)]
+    case = {"t1": repr(t1), "t2": repr(t2), "report_repetition": rep, "verdicts": sorted(set(repr(g) for _k, g in kv)),
+            "alias": V.contains_alias(t1, t2), "tag_like": has_tag_like(t1, t2), "bool_sep": bool_sep(t1, t2),
+            "spec_equal": spec_canon(t1, rep) == spec_canon(t2, rep),
+            "knob_verdicts": [[kn, got] for kn, got in kv]}
+    case.update(extra)
+    return case
 
 
 def check_verdict(ctx, t1, t2, kn, got):
@@ -657,6 +853,11 @@ FIXED_PAIRS = [
     ({"k": [[1, 2, 3, 4, 5], [1, 2, 3, 4, 6]]}, {"k": [[1, 2, 3, 4, 7], [1, 2, 3, 4, 5], [1, 2, 3, 4, 5]]}),
     ([[1, 2, 3, 4, 5, 6], [1, 2, 3, 4, 5, 6], "x"], ["x", [1, 2, 3, 4, 5, 7], [1, 2, 3, 4, 5, 7]]),
     ([[[1, 2, 3, 4], [5, 6, 7, 8]], [[1, 2, 3, 4], [5, 6, 7, 8]]], [[[5, 6, 7, 9], [1, 2, 3, 4]], [[1, 2, 3, 0], [8, 7, 6, 5]]]),
+    # K1 through the pairing (C05_tag_collision_knob_refuted): with report_repetition the colliding members None / 'NONE' are COUNTED in the
+    # hash of a set item, so the items differ as list items, and _diff_set sees no difference once they are paired; the model must give
+    # both results (recorded pairing: empty; pairing off: added / removed)
+    ([{"NONE"}], [{None, "NONE"}]),
+    ([False, {"", "NONE"}, {"", "NONE"}], [{"", None, "NONE"}, False]),
 ]
 
 ALIAS_FIXED = [
@@ -677,6 +878,19 @@ FIXED_TIMES = [
     ([_T(1, 2, 3, 5), _T(1, 2, 3, 6)], [_T(1, 2, 3, 6), _T(1, 2, 3, 5), _T(1, 2, 3, 5)]),
     ([{"t": _T(0, 0, 0, 1), "k": [1, 2]}, {"t": _T(0, 0, 0, 2), "k": [1, 2]}], [{"t": _T(0, 0, 0, 2), "k": [2, 1]}, {"t": _T(0, 0, 0, 3), "k": [1, 2]}]),
 ]
+
+# K1 seen through the knob clause (direct oracle, fixed settings: no draw from the PRNG)
+K1_KNOB_PAIRS = [
+    ([{"NONE"}], [{None, "NONE"}]),
+    ([False, {"", "NONE"}, {"", "NONE"}], [{"", None, "NONE"}, False]),
+    ([[1, "int:1", 5], 9], [9, [5, "int:1"]]),                       # list items: counted with report_repetition, one hash without
+    ([{"k": frozenset({True, "bool:true"})}, "p"], ["p", {"k": frozenset({"bool:true"})}]),
+    ([{"NONE"}, 7], [7, {None, "NONE"}, {None, "NONE", "zz"}]),      # one item more: non-empty whatever the knobs
+]
+K1_KNOB_SETTINGS = [dict(k, report_repetition=rp) for rp in (False, True)
+                    for k in (dict(), dict(max_passes=0), dict(cutoff_intersection_for_pairs=0), dict(max_passes=1),
+                              dict(cutoff_distance_for_pairs=0.05, cutoff_intersection_for_pairs=1, cache_size=50),
+                              dict(cutoff_distance_for_pairs=1, cutoff_intersection_for_pairs=1, threshold_to_diff_deeper=1))]
 
 FIXED_FINDINGS = [
     ([None], ["NONE"]),
@@ -929,11 +1143,9 @@ def oracle_grid(ctx, jobs, pool):
             ctx.count("oracle:empty" if got is True else "oracle:nonempty")
         for rep, vs in verdicts.items():
             if len(vs) > 1:
-                _fail(ctx, "knob_dependence", {"t1": t1r, "t2": t2r, "report_repetition": rep, "verdicts": sorted(map(repr, vs)),
-                          "alias": V.contains_alias(t1, t2), "tag_like": has_tag_like(t1, t2), "bool_sep": bool_sep(t1, t2),
-                          "spec_equal": spec_canon(t1, rep) == spec_canon(t2, rep),
-                          "alias_blind_equal": alias_blind(t1, rep) == alias_blind(t2, rep),
-                          "bool_blind_equal": bool_blind(t1, rep) == bool_blind(t2, rep)},
+                _fail(ctx, "knob_dependence", knob_case(t1, t2, rep, out,
+                          alias_blind_equal=alias_blind(t1, rep) == alias_blind(t2, rep),
+                          bool_blind_equal=bool_blind(t1, rep) == bool_blind(t2, rep)),
                          "the empty/non-empty verdict depends on the pairing knobs")
         for rep in (False, True):
             eq = spec_canon(t1, rep) == spec_canon(t2, rep)
@@ -1157,8 +1369,8 @@ def oracle_shared(ctx, pool, n_tasks, per_task):
                 ctx.count("shared:empty" if got is True else "shared:nonempty")
             for rep, vs in verdicts.items():
                 if len(vs) > 1:
-                    _fail(ctx, "knob_dependence", {"t1": t1r, "t2": t2r, "t2_recipe": rec, "shared": True, "report_repetition": rep, "verdicts": sorted(map(repr, vs)),
-                              "alias": V.contains_alias(t1, t2v), "tag_like": has_tag_like(t1, t2v)},
+                    _fail(ctx, "knob_dependence", knob_case(t1, t2v, rep, [(kn, got) for kn, got, _r, _u in out], t2_recipe=rec, shared=True,
+                              copy_agrees=all(got == ref for _k, got, ref, _u in out)),
                              "t2 re-uses objects of t1: the empty/non-empty verdict depends on the pairing knobs")
     ctx.count("shared:pairs", npairs)
 
@@ -1308,8 +1520,8 @@ def check_inner(ctx, src, t1r, t2r, out):
         ctx.count("inner:empty" if got is True else "inner:nonempty")
     for rep, vs in verdicts.items():
         if len(vs) > 1:
-            _fail(ctx, "knob_dependence", dict(src, t1=t1r, t2=t2r, internal=True, report_repetition=rep,
-                      verdicts=sorted(map(repr, vs)), alias=V.contains_alias(t1v, t2v), tag_like=has_tag_like(t1v, t2v)),
+            _fail(ctx, "knob_dependence", dict(knob_case(t1v, t2v, rep, [(kn, got) for kn, got, _c, _u in out], internal=True,
+                                                         copy_agrees=all(got == ctl for _k, got, ctl, _u in out)), t1=t1r, t2=t2r, **src),
                      "t1 references one container object several times: the empty/non-empty verdict depends on the pairing knobs")
 
 
@@ -1338,6 +1550,14 @@ def replay_witnesses(ctx):
             ctx.break_("correspondence", {"name": name, "detail": detail})
     probe("C05_verdict_tag_refuted([None] vs ['NONE'])", [None], ["NONE"], True,
           "[None] vs ['NONE'] is now reported as different: the model (K1 collision) is stale")
+    probe("C05_tag_collision_knob_refuted([{'NONE'}] vs [{None,'NONE'}], report_repetition, paired)", [{"NONE"}], [{None, "NONE"}], True,
+          "[{'NONE'}] vs [{None,'NONE'}] with report_repetition is now reported as different with the default knobs: the model (K1 collision inside _diff_set) is stale",
+          report_repetition=True)
+    probe("C05_tag_collision_knob_refuted([{'NONE'}] vs [{None,'NONE'}], report_repetition, max_passes=0)", [{"NONE"}], [{None, "NONE"}], False,
+          "[{'NONE'}] vs [{None,'NONE'}] with report_repetition is now reported as equal without pairing: the model (colliding member hashes counted) is stale",
+          report_repetition=True, max_passes=0)
+    probe("C05_tag_collision_knob_refuted([{'NONE'}] vs [{None,'NONE'}], sets)", [{"NONE"}], [{None, "NONE"}], True,
+          "[{'NONE'}] vs [{None,'NONE'}] is now reported as different as nested sets: the model (K1 collision) is stale", max_passes=0)
     probe("C05_verdict_alias_refuted([1] vs [1.0], shared hashes table)", [1], [1.0], True,
           "[1] vs [1.0] is now reported as different: the memo-threading model (table keyed by ==) is stale")
     probe("C05_verdict_key_alias_refuted({1:'a'} vs {1.0:'a'})", {1: "a"}, {1.0: "a"}, True,
@@ -1444,6 +1664,8 @@ def run(ctx):
                 n_alias += 1
                 jobs.append((a, b, rng.sample(ALL_KNOBS, 8)))
         ctx.count("oracle:alias_pairs", n_alias)
+        for a, b in K1_KNOB_PAIRS:
+            jobs.append((a, b, K1_KNOB_SETTINGS))
         oracle_grid(ctx, jobs, pool)
         lap("oracle_grid")
         # --- objects shared across t1 and t2 (t2 built from pieces of t1 by reference)
@@ -1462,7 +1684,7 @@ def replay(ctx, data):
     if "t1" not in case:
         return run(ctx)
     if case.get("internal"):
-        knobs = [case["knobs"]] if "knobs" in case else [dict(k, report_repetition=rp) for k in INNER_KNOBS for rp in REPS]
+        knobs = [case["knobs"]] if "knobs" in case else ([kn for kn, _g in case["knob_verdicts"]] if case.get("knob_verdicts") else [dict(k, report_repetition=rp) for k in INNER_KNOBS for rp in REPS])
         src = {k: case[k] for k in ("base", "t1_recipe", "t1_pickle") if k in case}
         out = inner_case(src, case["t2"], knobs)
         for kn, got, ctl, _u in out:
@@ -1471,10 +1693,11 @@ def replay(ctx, data):
         check_inner(ctx, src, case["t1"], case["t2"], out)
         return
     if case.get("shared"):
-        knobs = [case["knobs"]] if "knobs" in case else [dict(k, report_repetition=rp) for k in SHARED_KNOBS for rp in REPS]
+        knobs = [case["knobs"]] if "knobs" in case else ([kn for kn, _g in case["knob_verdicts"]] if case.get("knob_verdicts") else [dict(k, report_repetition=rp) for k in SHARED_KNOBS for rp in REPS])
         t2v = from_repr(case["t2"])
         vs = {}
-        for kn, got, ref, unmod in shared_case(case["t1"], case["t2_recipe"], knobs):
+        sout = shared_case(case["t1"], case["t2_recipe"], knobs)
+        for kn, got, ref, unmod in sout:
             ctx.evaluations += 1
             print("replay (t2 shares objects with t1): knobs=%r -> shared %s, deep-copied %s" % (kn, got, ref))
             g = got if isinstance(got, bool) else RuntimeError(got)
@@ -1487,25 +1710,24 @@ def replay(ctx, data):
             vs.setdefault(kn.get("report_repetition", False), set()).add(got)
         for rep, s_ in vs.items():
             if len(s_) > 1:
-                _fail(ctx, "knob_dependence", {"t1": case["t1"], "t2": case["t2"], "t2_recipe": case["t2_recipe"], "shared": True, "report_repetition": rep,
-                          "verdicts": sorted(map(repr, s_))}, "t2 re-uses objects of t1: the empty/non-empty verdict depends on the pairing knobs")
+                _fail(ctx, "knob_dependence", knob_case(from_repr(case["t1"]), t2v, rep, [(kn, got) for kn, got, _r, _u in sout], t2_recipe=case["t2_recipe"],
+                          shared=True, copy_agrees=all(got == ref for _k, got, ref, _u in sout)),
+                      "t2 re-uses objects of t1: the empty/non-empty verdict depends on the pairing knobs")
         return
     t1, t2 = from_repr(case["t1"]), from_repr(case["t2"])
-    knobs = [case["knobs"]] if "knobs" in case else ALL_KNOBS
+    # a knob_dependence record carries the settings it was observed under: those are replayed; otherwise the whole product
+    knobs = [case["knobs"]] if "knobs" in case else ([kn for kn, _g in case["knob_verdicts"]] if case.get("knob_verdicts") else ALL_KNOBS)
+    out = []
     for kn in knobs:
         got = verdict(t1, t2, **kn)
+        out.append((kn, _enc(got)))
         ctx.evaluations += 1
         print("replay: t1=%r t2=%r knobs=%r -> %s" % (t1, t2, kn, "empty" if got is True else ("non-empty" if got is False else repr(got))))
         check_verdict(ctx, t1, t2, kn, got)
     if "knobs" not in case:
-        vs = {}
-        for kn in ALL_KNOBS:
-            vs.setdefault(kn["report_repetition"], set()).add(_enc(verdict(t1, t2, **kn)))
-        for rep, s in vs.items():
-            if len(s) > 1:
-                _fail(ctx, "knob_dependence", {"t1": case["t1"], "t2": case["t2"], "report_repetition": rep, "verdicts": sorted(map(repr, s)),
-                          "alias": V.contains_alias(t1, t2), "tag_like": has_tag_like(t1, t2), "bool_sep": bool_sep(t1, t2),
-                          "spec_equal": spec_canon(t1, rep) == spec_canon(t2, rep),
-                          "alias_blind_equal": alias_blind(t1, rep) == alias_blind(t2, rep),
-                          "bool_blind_equal": bool_blind(t1, rep) == bool_blind(t2, rep)},
-                         "the empty/non-empty verdict depends on the pairing knobs")
+        for rep in REPS:
+            if len({g for kn, g in out if bool(kn.get("report_repetition", False)) == rep}) > 1:
+                _fail(ctx, "knob_dependence", knob_case(t1, t2, rep, out,
+                          alias_blind_equal=alias_blind(t1, rep) == alias_blind(t2, rep),
+                          bool_blind_equal=bool_blind(t1, rep) == bool_blind(t2, rep)),
+                      "the empty/non-empty verdict depends on the pairing knobs")
